@@ -214,6 +214,9 @@ def trackOp (st : DState) (args : List String) : DState × String :=
   | ["reset", la, lo, r] => match parseFloat la, parseFloat lo, parseFloat r with
     | some a, some b, some c => ({ planes := [], rx := (a, b), range := c, now := st.now, stats := {} }, "OK")
     | _, _, _ => (st, "BADOP")
+  | ["rx", la, lo] => match parseFloat la, parseFloat lo with
+    | some a, some b => ({ st with rx := (a, b) }, "OK")
+    | _, _ => (st, "BADOP")
   | ["act", h] => match parseBuf h with
     | some B => match decode B with
       | .ok f =>
